@@ -236,9 +236,15 @@ impl Deserializable for StackOutputs {
         let count = source.read_u32()?.try_into().expect("u32 must fit in a usize");
         let overflow_addrs = source.read_many::<u64>(count)?;
 
-        Ok(Self {
-            stack,
-            overflow_addrs,
-        })
+        // decoded values must satisfy the same invariants as constructed ones (canonical field
+        // elements, at least 16 stack items, matching number of overflow addresses)
+        if stack.len() < STACK_TOP_SIZE {
+            return Err(DeserializationError::InvalidValue(format!(
+                "stack outputs must contain at least {STACK_TOP_SIZE} elements, but {} were read",
+                stack.len()
+            )));
+        }
+        Self::new(stack, overflow_addrs)
+            .map_err(|err| DeserializationError::InvalidValue(format!("{err}")))
     }
 }
